@@ -2213,6 +2213,20 @@ return 1;""",
 
             self._create_splicer(typename, output, fmted)
             output.append("}")
+        if "dealloc" not in selected:
+            # tp_del is not called by the interpreter for a static type.
+            # Release the C++ instance when the object is deallocated.
+            fmt.PY_type_method = "tp_dealloc"
+            func_name = wformat(template, fmt)
+            fmt_type["tp_dealloc"] = func_name
+            output.append("static void")
+            output.append("{} ({} *self)".format(func_name, PyObj))
+            output.append("{")
+            output.append(1)
+            output.append("{}(self);".format(fmt_type["tp_del"]))
+            output.append("Py_TYPE(self)->tp_free((PyObject *) self);")
+            output.append(-1)
+            output.append("}")
         self._pop_splicer("type")
 
 
@@ -4576,6 +4590,7 @@ py_statements = [
             "\t PyObject_New({PyObject}, &{PyTypeObject});",
             "if ({py_var} == {nullptr}) goto fail;",
             "{py_var}->{PY_type_obj} = {cxx_addr}{cxx_var};",
+            "{py_var}->{PY_type_dtor} = 0;",
         ],
         object_created=True,
 #            post_call_capsule=[
@@ -4596,6 +4611,7 @@ py_statements = [
             "\t PyObject_New({PyObject}, &{PyTypeObject});",
 #                "if ({py_var} == {nullptr}) goto fail;",
             "{py_var}->{PY_type_obj} = {cxx_addr}{cxx_var};",
+            "{py_var}->{PY_type_dtor} = 0;",
         ],
         object_created=True,
 #            post_call_capsule=[
